@@ -166,8 +166,8 @@ fn gen_case(rng: &mut Rng, nusers: usize) -> Case {
             };
             rows.push(Row { surface: format!("u{}w{}", d + 1, j), reading: format!("ユ{}", j), pos, a: vec![], b: vec![], ws: vec![] });
         }
-        // inline references need a resolvable dictionary; against a configured dictionary that already holds user
-        // dictionaries the builder's BinDictResolver walks ids of all layers as system ids: labelled separately below
+        // inline references against a configured dictionary that already holds user dictionaries used to panic in the
+        // builder's BinDictResolver (repaired in the repository, see KNOWN_FINDINGS.txt); they stay in the stream
         let allow_inline = rng.chance(2, 3);
         for j in 0..nrows {
             rows[j].a = gen_units(rng, j, nrows, nsys, true, allow_inline);
@@ -417,6 +417,9 @@ fn run_case(sink: &mut Sink, c: &Case, verbose: bool) {
         if out_of_range {
             // malformed stream: a reference to a system word that does not exist must be rejected by the builder
             sink.tag("malformed_reference_beyond_system_dictionary");
+            if verbose {
+                println!("builder outcome for the out-of-range reference: {:?}", r.as_ref().map(|b| format!("compiled, {} bytes", b.len())));
+            }
             match r {
                 Ok(_) => fail(format!("user dictionary {} references system word beyond the system dictionary ({} words) and was compiled", k + 1, c.sys.len()), ""),
                 Err(e) if e.starts_with("PANIC") => fail(format!("builder panicked on an out-of-range system reference: {}", e), ""),
@@ -434,7 +437,8 @@ fn run_case(sink: &mut Sink, c: &Case, verbose: bool) {
                 if verbose {
                     println!("user dictionary {} ({}) does not compile: {}", k + 1, if *configured { "configured route" } else { "bare route" }, e);
                 }
-                let class = if *configured && k > 0 && has_inline { "c12_inline_ref_configured_stack" } else { "" };
+                let _ = has_inline;
+                let class = "";
                 fail(format!("user dictionary {} ({}) does not compile: {}", k + 1, if *configured { "built against the configured dictionary" } else { "built against the bare system dictionary" }, e), class);
                 loaded_ok = false;
                 break;
